@@ -686,6 +686,8 @@ class Interp(object):
             raise Undecided("iteration over a set with symbolic ranges")
         if isinstance(v, MSet) and v.sitems:
             return iter(list(set.__iter__(v)) + list(v.sitems))
+        if isinstance(v, (list, tuple)) and any(type(x).__name__ == "Splice" for x in v):
+            raise Undecided("iteration over a list holding an abstract run (list.extend(<abstract sequence>))")
         if isinstance(v, (list, tuple, str, dict, set, frozenset, range, IGen)):
             return iter(v)
         tp = type(v)
@@ -824,7 +826,7 @@ class Interp(object):
         items = self.eval_elts(e.elts, env)
         if has_sym(items):
             raise Undecided("set display with symbolic members")
-        return set(items)
+        return MSet(items)              # like set(...): may later be update()d with a symbolic range
 
     def eval_elts(self, elts, env):
         out = []
@@ -985,12 +987,18 @@ class Interp(object):
         return a is b
 
     def contains(self, container, item):
-        if is_sym(container) or isinstance(item, Sym) or has_sym(container, 1):
+        if is_sym(container) or isinstance(item, Sym) or has_sym(container, 1) or has_sym(item, 2):
             return self.models.contains(container, item)
         f = getattr(type(container), "__contains__", None)
         if isinstance(f, types.FunctionType) and self.should_interpret(f):
             return self.truth(self.call(f, [container, item], {}))
-        return item in container
+        if getattr(container, "_pyvc_model", False):
+            return item in container
+        Sym.STRICT += 1
+        try:
+            return item in container
+        finally:
+            Sym.STRICT -= 1
 
     def e_Call(self, e, env):
         fn = self.eval(e.func, env)
@@ -1077,6 +1085,20 @@ class Interp(object):
         fenv.vars["$yield"].append(v)         # ghost output sequence (everything yielded so far)
         return fenv.vars["$gen"].produce(v)
 
+    def e_YieldFrom(self, e, env):
+        """yield from <iterable>: every item is yielded in turn (values sent into the generator and the
+        sub-generator's return value are not modelled: the expression evaluates to None)"""
+        src = self.eval(e.value, env)
+        fenv = env
+        while fenv is not None and "$gen" not in fenv.vars:
+            fenv = fenv.parent
+        if fenv is None:
+            raise Undecided("yield from outside generator")
+        for v in self.iterate(src):
+            fenv.vars["$yield"].append(v)
+            fenv.vars["$gen"].produce(v)
+        return None
+
     def e_Starred(self, e, env):
         raise Undecided("starred expression")
 
@@ -1151,6 +1173,8 @@ class Interp(object):
     def getitem(self, obj, idx):
         if isinstance(obj, Sym) or isinstance(idx, Sym) or (isinstance(idx, slice) and has_sym((idx.start, idx.stop, idx.step))):
             return self.models.getitem(obj, idx)
+        if isinstance(idx, tuple) and has_sym(idx, 1) and type(obj) is dict:
+            return self.models.container_method(obj, "__getitem__", [idx], {})
         tp = type(obj)
         f = _static_lookup(tp, "__getitem__")
         if isinstance(f, types.FunctionType) and self.should_interpret(f):
@@ -1160,7 +1184,13 @@ class Interp(object):
             miss = _static_lookup(tp, "__missing__")
             if miss is not None and isinstance(miss, types.FunctionType) and self.should_interpret(miss) and idx not in obj:
                 return self.call_real_function(miss, [obj, idx], {})
-        return obj[idx]
+        if getattr(obj, "_pyvc_model", False):
+            return obj[idx]
+        Sym.STRICT += 1
+        try:
+            return obj[idx]
+        finally:
+            Sym.STRICT -= 1
 
     def setitem(self, obj, idx, value):
         if isinstance(obj, Sym) or isinstance(idx, Sym):
